@@ -226,7 +226,7 @@ func init() {
 	})
 	register(&propDef{
 		ID:          "C02",
-		Explanation: "Decides the NF discipline in the predicate machinery (evalPredicate, applyFilter, arrayify, normalizeArray and the evalPath->evalPathStep->evalOverArray chain a filter path enters with an array item): every reflect accessor receiver is provably resolved on every path, interprocedurally. This is the clause behind the two panics the property names (x[$$.idx], arr[o] on [[1]]). (W) evalPredicate, applyFilter and their helpers write no pre-existing memory and keep no state between calls. (LISTFLOW) in evalPredicate every filter is applied to arrayify of the step's own value or of the survivor list the previous applyFilter returned, and the result is no value or normalizeArray of those survivors — never an element picked out of the list, which arrayify would mistake for the list when it is itself an array. NOT decided: floor/negative index arithmetic, boolean casting, number-array detection, step-local vs whole-path attachment (value-level). (F2I) the numeric predicate is floored (math.Floor) before it becomes an integer position: no float-to-integer conversion in the predicate machinery truncates. (FILTERALL) the loop of applyFilter over the items is left from inside its body only by error returns: every item is judged.",
+		Explanation: "Decides the NF discipline in the predicate machinery (evalPredicate, applyFilter, arrayify, normalizeArray and the evalPath->evalPathStep->evalOverArray chain a filter path enters with an array item): every reflect accessor receiver is provably resolved on every path, interprocedurally. This is the clause behind the two panics the property names (x[$$.idx], arr[o] on [[1]]). (W) evalPredicate, applyFilter and their helpers write no pre-existing memory and keep no state between calls. (LISTFLOW) in evalPredicate every filter is applied to arrayify of the step's own value or of the survivor list the previous applyFilter returned, and the result is no value or normalizeArray of those survivors — never an element picked out of the list, which arrayify would mistake for the list when it is itself an array. NOT decided: floor/negative index arithmetic, boolean casting, number-array detection, step-local vs whole-path attachment (value-level). (F2I) the numeric predicate is floored (math.Floor) before it becomes an integer position: no float-to-integer conversion in the predicate machinery truncates. (FILTERALL) the loop of applyFilter over the items is left from inside its body only by error returns: every item is judged. (ACCFRESH) every reflect.Append in applyFilter appends to a value rooted in reflect.MakeSlice (through appends, phis and parameters judged at every call).",
 		Rule:        commonRule,
 		Fixtures:    []string{"nf", "w"},
 		Run: func(c *Ctx, r *Result) {
@@ -452,7 +452,7 @@ func init() {
 	})
 	register(&propDef{
 		ID:          "C13",
-		Explanation: "Decides: the functions implementing order-by and $sort write only memory of the same evaluation and hand none to unreviewed library code (W restricted to the sort machinery: no pooled or cached sort records); every sort call reachable from Eval is a stable variant (sort.SliceStable/sort.Stable); every comparator handed to them returns only constants, strict < / > tests, or calls that return only those (no <=, >=, ==, negation, lte) — a non-strict less function breaks stability for ties; the slice sorted in place is allocated by the same evaluation; jlib.merge calls the user comparator as swap(left head, right head) and takes the left head on a false result, so the hand-written merge sort is stable. Go's unstable sort is an insertion sort below 12 items, so none of this is visible to the suite. NOT decided: permutation/order/error clauses as values, key typing, direction per term. (MISSLAST) the order-by comparator answers false when the first item's key is absent and true when the second item's is: items without the key go last; (SORTTYPES) mixed number/string keys of one term are detected whatever lies between them. (PERITEM) what parseSort records for a sort term is computed in that term's own round of the loop. (SORTVALID) order-by returns a value only behind the err == nil edge of the key validator.",
+		Explanation: "Decides: the functions implementing order-by and $sort write only memory of the same evaluation and hand none to unreviewed library code (W restricted to the sort machinery: no pooled or cached sort records); every sort call reachable from Eval is a stable variant (sort.SliceStable/sort.Stable); every comparator handed to them returns only constants, strict < / > tests, or calls that return only those (no <=, >=, ==, negation, lte) — a non-strict less function breaks stability for ties; the slice sorted in place is allocated by the same evaluation; jlib.merge calls the user comparator as swap(left head, right head) and takes the left head on a false result, so the hand-written merge sort is stable. Go's unstable sort is an insertion sort below 12 items, so none of this is visible to the suite. NOT decided: permutation/order/error clauses as values, key typing, direction per term. (MISSLAST) the order-by comparator answers false when the first item's key is absent and true when the second item's is: items without the key go last; (SORTTYPES) mixed number/string keys of one term are detected whatever lies between them. (PERITEM) what parseSort records for a sort term is computed in that term's own round of the loop. (SORTVALID) order-by returns a value only behind the err == nil edge of the key validator. (SORTGATE) the collectors that skip members of another type are called only on the true edge of jtypes.IsArrayOf on the same array.",
 		Rule:        commonRule,
 		Fixtures:    []string{"sort", "shape"},
 		Run: func(c *Ctx, r *Result) {
